@@ -11,7 +11,10 @@ impl Operation {
     pub fn negate(val: Val) -> Result<Val> {
         use Val::*;
         match val {
-            Integer(n) => Ok(Integer(-n)),
+            Integer(n) => match n.checked_neg() {
+                Some(i) => Ok(Integer(i)),
+                None => Err(error!(Overflow)),
+            },
             Single(n) => Ok(Single(-n)),
             Double(n) => Ok(Double(-n)),
             String(_) | Return(_) | Next(_) => Err(error!(TypeMismatch)),
